@@ -257,35 +257,26 @@ Proof. exact float_syntax_spelled. Qed.
 Print Assumptions C05_float_syntax_accepts_xsd.
 
 (* ======================= enumerations ===================================== *)
-(* full round trip is false: whitespace in str values, tuple values *)
-Theorem C05_enum_str_outer_ws_refuted :
-  exists d v, str_values d = Some [v] /\ enum_ser None (EvAtom (AStr v)) = Some (v, None) /\ enum_deser None d v = None.
-Proof. exact enum_str_roundtrip_outer_ws_refuted. Qed.
-Print Assumptions C05_enum_str_outer_ws_refuted.
-
-Theorem C05_enum_str_collision_refuted :
-  exists d v, str_values d = Some [[97;32;98]%N; v] /\ NoDup [[97;32;98]%N; v]
-              /\ enum_ser None (EvAtom (AStr v)) = Some (v, None) /\ enum_deser None d v = Some 0%nat.
-Proof. exact enum_str_roundtrip_collision_refuted. Qed.
-Print Assumptions C05_enum_str_collision_refuted.
-
+(* full round trip is false: tuple values *)
 Theorem C05_enum_tuple_ser_refuted :
   let v := EvTuple [AStr [97]%N; AStr [98]%N] in
   enum_ser None v = None /\ enum_deser None [([65]%N, v)] [97;32;98]%N = Some 0%nat.
 Proof. exact enum_tuple_ser_refuted. Qed.
 Print Assumptions C05_enum_tuple_ser_refuted.
 
-(* guard enum_str_value_ok: no outer whitespace, interior whitespace as single spaces *)
+(* no whitespace guard any more (repo fix 64a4ace: an exact match wins) *)
 Theorem C05_enum_str_roundtrip : forall m d vs i v,
-  str_values d = Some vs -> NoDup vs -> nth_error vs i = Some v -> enum_str_value_ok v = true ->
+  str_values d = Some vs -> NoDup vs -> nth_error vs i = Some v ->
   enum_ser m (EvAtom (AStr v)) = Some (v, m) /\ enum_deser m d v = Some i.
 Proof. exact enum_str_roundtrip. Qed.
 Print Assumptions C05_enum_str_roundtrip.
 
-Example C05_enum_str_guard_nonvacuous :
-  enum_str_value_ok [98;32;99]%N = true /\ enum_str_value_ok [120]%N = true /\ enum_str_value_ok [] = true.
-Proof. exact enum_str_guard_nonvacuous. Qed.
-Print Assumptions C05_enum_str_guard_nonvacuous.
+Example C05_enum_str_ws_witnesses :
+  enum_deser None [([65]%N, EvAtom (AStr [32;108]%N))] [32;108]%N = Some 0%nat
+  /\ enum_deser None [([88]%N, EvAtom (AStr [97;32;98]%N)); ([89]%N, EvAtom (AStr [97;9;98]%N))] [97;9;98]%N = Some 1%nat
+  /\ enum_deser None [([88]%N, EvAtom (AStr [97;32;98]%N)); ([89]%N, EvAtom (AStr [97;9;98]%N))] [32;97;10;32;98]%N = Some 0%nat.
+Proof. exact enum_str_ws_witnesses. Qed.
+Print Assumptions C05_enum_str_ws_witnesses.
 
 Theorem C05_enum_int_roundtrip : forall m d zs i z s,
   int_values d = Some zs -> NoDup zs -> nth_error zs i = Some z -> int_ser z = Some s ->
